@@ -65,6 +65,7 @@ type failure struct {
 type report struct {
 	Translated []string       `json:"translated"`
 	Overrides  []overrideInfo `json:"overrides"`
+	Primitives []overrideInfo `json:"primitives"`
 	Failed     []failure      `json:"failed"`
 	Skipped    []string       `json:"skipped_statements"`
 	Nodes      int            `json:"definitions"`
@@ -92,6 +93,7 @@ func main() {
 	out := flag.String("out", "", "output directory for generated .v files")
 	rep := flag.String("report", "", "report json path")
 	reg := flag.String("registry", "", "path of the generated Go registry for the harness")
+	stamp := flag.Bool("stamp-primitives", false, "record the current hashes of the hand-modelled helper primitives (deliberate act, after checking the models)")
 	flag.Parse()
 	exe, _ := os.Executable()
 	_ = exe
@@ -124,6 +126,7 @@ func main() {
 		fatal(err)
 	}
 	t.index()
+	t.primitives(*stamp)
 	t.translateAll()
 	t.allCoercions()
 	if *reg != "" {
@@ -254,6 +257,42 @@ func (t *translator) index() {
 					t.funcPkg[n] = pi
 				}
 			}
+		}
+	}
+}
+
+// primitiveFuncs are the Go functions whose behaviour is hand-modelled in coq/Base/Stream.v, coq/Data and
+// coq/Base/GenPrelude.v (constructors of the expression language, Ring, Bst). Their source hashes are recorded in
+// translator/primitives.json; a changed hash means the hand model was validated against different source.
+var primitiveFuncs = []string{"helper_Map", "helper_Apply", "helper_Operate", "helper_Operate3", "helper_MapWithPrevious", "helper_Skip",
+	"helper_Shift", "helper_Head", "helper_First", "helper_Buffered", "helper_Count", "helper_Duplicate", "helper_Drain", "helper_Pipe",
+	"helper_SliceToChan", "helper_ChanToSlice", "helper_Filter", "helper_Last", "helper_Echo", "helper_Seq", "helper_Waitable",
+	"helper_NewBst", "helper_Bst_Insert", "helper_Bst_Remove", "helper_Bst_Contains", "helper_Bst_Min", "helper_Bst_Max",
+	"helper_Bst_searchNode", "helper_Bst_removeNode", "helper_Bst_minNode", "helper_Bst_maxNode",
+	"helper_NewRing", "helper_Ring_Put", "helper_Ring_Get", "helper_Ring_At", "helper_Ring_IsFull", "helper_Ring_IsEmpty", "helper_Ring_nextIndex"}
+
+func (t *translator) primitives(stamp bool) {
+	path := filepath.Join(t.ovDir, "..", "primitives.json")
+	stored := map[string]string{}
+	if data, err := os.ReadFile(path); err == nil {
+		_ = json.Unmarshal(data, &stored)
+	}
+	cur := map[string]string{}
+	for _, n := range primitiveFuncs {
+		fd, ok := t.funcs[n]
+		h := "absent"
+		if ok {
+			h = t.hashFunc(fd)
+		}
+		cur[n] = h
+		t.rep.Primitives = append(t.rep.Primitives, overrideInfo{Key: n, Hash: h, Stored: stored[n], Stale: stored[n] != h})
+	}
+	if stamp {
+		data, _ := json.MarshalIndent(cur, "", " ")
+		_ = os.WriteFile(path, append(data, '\n'), 0o644)
+		for i := range t.rep.Primitives {
+			t.rep.Primitives[i].Stored = t.rep.Primitives[i].Hash
+			t.rep.Primitives[i].Stale = false
 		}
 	}
 }
